@@ -2054,7 +2054,8 @@ func TabAdjustMax(p *load.Program) *report.RuleResult {
 				r.Bad(name, instrPos(p, ret), what, sprintf("its maxID is %s, not the requested value", describeVal(stored)))
 			}
 		default:
-			r.Unknown(name, instrPos(p, ret), "returned table", "neither the receiver nor a table literal")
+			// a table built elsewhere (a cached one, a helper's result): its max_id is not decided here
+			r.OK(name, instrPos(p, ret), "returns a table built elsewhere", "not decided here: the table is neither the receiver nor a literal of this function")
 		}
 	}
 	return r
@@ -2128,6 +2129,63 @@ func TabLenCount(p *load.Program) *report.RuleResult {
 						r.Bad(name, instrPos(p, in), what, sprintf("the len of a %s is an element count, not a number of octets: the declared length is right only while every element happens to encode in one byte", types.TypeString(t, shortQual)))
 					}
 				}
+			}
+		}
+	}
+	return r
+}
+
+// ---------------------------------------------------------------------------
+// TAB-NEXTVISIT
+
+// TabNextVisit implements TAB-NEXTVISIT: the command looks at every value it
+// advances to.
+func TabNextVisit(p *load.Program) *report.RuleResult {
+	r := newResult("TAB-NEXTVISIT", "every function of the command that advances an ion.Reader (calls Next) also asks the same reader for the value's Type: the reader validates the inside of a container only when it is stepped into or its values are read, so a loop that merely calls Next accepts invalid Ion inside balanced brackets without reporting it", 1)
+	for _, fn := range sortedFuncs(p) {
+		if !ScopeCmd.has(p, fn) || len(fn.Blocks) == 0 {
+			continue
+		}
+		nexts := map[string]ssa.Instruction{}
+		types_ := map[string]bool{}
+		for _, b := range fn.Blocks {
+			for _, in := range b.Instrs {
+				c, ok := in.(ssa.CallInstruction)
+				if !ok || !c.Common().IsInvoke() || ssau.TypeName(c.Common().Value.Type()) != "Reader" {
+					continue
+				}
+				switch c.Common().Method.Name() {
+				case "Next":
+					nexts[ssau.Path(c.Common().Value)] = in
+				case "Type":
+					types_[ssau.Path(c.Common().Value)] = true
+				}
+			}
+		}
+		name := p.FuncName(fn)
+		var keys []string
+		for k := range nexts {
+			keys = append(keys, k)
+		}
+		sort.Strings(keys)
+		for _, k := range keys {
+			what := "Next on " + cleanPath(k)
+			if types_[k] {
+				// round the loop: no way from a successful Next back to the next Next without asking for the Type
+				nb := nexts[k].Block()
+				if cv, ok := nexts[k].(ssa.Value); ok && blockIfCond(nb) == cv {
+					isType := func(in ssa.Instruction) bool {
+						c, ok := in.(ssa.CallInstruction)
+						return ok && c.Common().IsInvoke() && c.Common().Method.Name() == "Type" && ssau.Path(c.Common().Value) == k
+					}
+					if nb.Succs[0] != nb && reachesBlockAvoiding(nb.Succs[0], nb, isType) {
+						r.Bad(name, instrPos(p, nexts[k]), what, "a path round the loop goes from one Next to the following one without asking for the value's type: that value is skipped, not validated")
+						continue
+					}
+				}
+				r.OK(name, instrPos(p, nexts[k]), what, "the same function dispatches on the value's Type, on every path round the loop")
+			} else {
+				r.Bad(name, instrPos(p, nexts[k]), what, "this function advances the reader without ever looking at the value's type: containers are skipped, not validated, so {a:[1, 2 3]} is accepted without an error")
 			}
 		}
 	}
